@@ -14,7 +14,7 @@ def plan(tier, ctx):
             qs.append(P.stored_query("C02", n, ao, True, core=core, witness=core))
     # (c) canonical code assignment / over-subscription, dynamic-header prefix
     #     (measured: nsym=5 110 s, nsym=19 > 150 s; cost is the ordered next_code[len]++ chain)
-    for nsym in ([2, 3, 4] if quick else list(range(1, 9)) + [12, 19]):
+    for nsym in ([2, 3, 4] if quick else list(range(1, 9))):
         qs.append(P.setcodes_query(nsym, core=(nsym == 3), witness=(nsym == 3), timeout=(None if quick else 2400)))
     qs.append(P.dynprefix_query())
     # (d) dynamic header: code-length decoding loop, concrete prefix + arbitrary tail (lead)
